@@ -14,3 +14,6 @@ def rules(ctx):
     S.c07_rules(ctx)
     S.c02_r3_free_horizon(ctx)
     S.c06_r5_tracking(ctx)
+    S.c06_r1_freed_merged(ctx)
+    S.c05_r1_abort_path(ctx)
+    S.c02_r4_who_frees(ctx)
